@@ -523,7 +523,8 @@ def verify(c: Contract, reg: Registry, want_smt_sample=False):
         outcome = None
         try:
             if getattr(fn, "is_fragment", False):
-                res = interp.call(fn.closure(), list(args.values()), {})
+                fargs = [interp.eval(_parse(a), env) for a in c.call] if c.call is not None else list(args.values())
+                res = interp.call(fn.closure(), fargs, {})
             elif c.call is not None:
                 res = interp.run_function(fn, [interp.eval(_parse(a), env) for a in c.call], {})
             elif isinstance(fn, Closure):
@@ -664,8 +665,12 @@ def run_native(c, reg, native, clause_text, cz=None):
         with cm:
             if getattr(fn, "is_fragment", False):
                 _it = Interp(Ctx(), reg)
+                _env = Env(globs=reg.spec_globals)
+                for k, v in call_args.items():
+                    _env.set(k, v)
+                fargs = [_it.eval(_parse(a), _env) for a in c.call] if c.call is not None else list(call_args.values())
                 try:
-                    res = _it.call(fn.closure(), list(call_args.values()), {})
+                    res = _it.call(fn.closure(), fargs, {})
                 except PyRaise as pr:
                     raise (pr.exc if isinstance(pr.exc, BaseException) else RuntimeError(str(pr.exc)))
             elif c.call is not None:
